@@ -5,8 +5,8 @@ From Dashu Require Import Base.Prelude Float.RoundSpec Ratio.SimplestSpec Ratio.
   Ratio.SimplestProof Ratio.SimplestAsis Ratio.FareyProof Ratio.FareyNext Ratio.FareyNearest Ratio.SimplestFindings
   Ratio.SimplestClosed Ratio.SimplestFloatEq Ratio.SimplestIeeeEq Ratio.SimplestIeeeFixed Ratio.RoundPreimage Ratio.FloatPreimage Ratio.IeeePreimage
   Ratio.SimplestFromFloatCorrect
-  Ratio.ErrorBoundsTableProof.
-From DashuGen Require Import ErrorBoundsTable.
+  Ratio.ErrorBoundsTableProof Ratio.SimplifyGenProof Ratio.RoundExecProof Ratio.SimplestEdges.
+From DashuGen Require Import ErrorBoundsTable SimplifyGen.
 Open Scope Z_scope.
 
 (** ** is_simpler_than *)
@@ -160,8 +160,8 @@ Theorem C18_simplest_from_ieee_pinned_glue : forall mb eb bits,
 Proof. exact simplest_from_ieee_pinned_closed. Qed.
 Print Assumptions C18_simplest_from_ieee_pinned_glue.
 
-(** outside the open finding classes F06 (odd base, half modes) and F07 (powers of the base) - F05 and F08 are
-    repaired - the FBig code computes the specified optimum:
+(** outside the open finding class F06 (odd base, half modes) - F05, F07 and F08 are repaired; [known_float] is
+    [known_oddbase] now, powers of the base included - the FBig code computes the specified optimum:
     every base, mode, precision, normalised significand with at most p digits, exponent *)
 Theorem C18_simplest_from_float_unless_known : forall B md p sig ex,
   2 <= B -> 0 < p -> sig mod B <> 0 -> ndigits B (Z.abs sig) <= p ->
@@ -255,7 +255,7 @@ Theorem C18_simplest_from_float_spec_meaning : forall B md p sig ex,
 Proof. exact simplest_from_float_spec_meaning. Qed.
 Print Assumptions C18_simplest_from_float_spec_meaning.
 
-(** the code (as-is model) of simplest_from_float outside the two open classes F06, F07 *)
+(** the code (as-is model) of simplest_from_float outside the open class F06 *)
 Theorem C18_simplest_from_float_correct : forall B md p sig ex,
   2 <= B -> 1 <= p -> sig mod B <> 0 -> ndigits B (Z.abs sig) <= p -> known_float B md p sig = false ->
   exists r, simplest_from_float_asis B md p sig ex = Ok (Some r) /\ canon r /\
@@ -273,7 +273,7 @@ Theorem C18_simplest_from_ieee_correct : forall mb eb bits i, 1 <= mb -> 0 <= eb
 Proof. exact simplest_from_ieee_correct. Qed.
 Print Assumptions C18_simplest_from_ieee_correct.
 
-(** ** findings: the repaired defects (F01-F05, F08) stay refuted on the pinned bodies, the open ones on the as-is models *)
+(** ** findings: the repaired defects (F01-F05, F07, F08) stay refuted on the earlier bodies, the open one (F06) on the as-is model *)
 Theorem C18_F01_is_simpler_than_pinned_refuted :
   simpler (1, 2) (5, 3) = true /\ is_simpler_than_pinned (1, 2) (5, 3) = false.
 Proof. exact is_simpler_than_pinned_refuted. Qed.
@@ -313,12 +313,23 @@ Theorem C18_F06_oddbase_refuted :
 Proof. exact simplest_from_float_oddbase_refuted. Qed.
 Print Assumptions C18_F06_oddbase_refuted.
 
+(** F07 is repaired (towards_zero in float/src/round.rs): the body before the repair stays refuted, today's body
+    returns the specified optimum at the witnesses (directed mode; half mode) *)
 Theorem C18_F07_powbase_refuted :
-  known_float 3 MAway 1 1 = true /\
-  simplest_from_float_asis 3 MAway 1 1 1 = Ok (Some (1, 1)) /\
+  known_powbase 1 1 = true /\ known_float 3 MAway 1 1 = false /\
+  simplest_from_float_r2 3 MAway 1 1 1 = Ok (Some (1, 1)) /\
+  simplest_from_float_asis 3 MAway 1 1 1 = Ok (Some (3, 1)) /\
   simplest_from_float_spec 3 MAway 1 1 1 = Ok (Some (3, 1)).
 Proof. exact simplest_from_float_powbase_refuted. Qed.
 Print Assumptions C18_F07_powbase_refuted.
+
+Theorem C18_F07_powbase_half_refuted :
+  simplest_from_float_r2 10 MHalfAway 1 1 1 = Ok (Some (5, 1)) /\
+  simplest_from_float_asis 10 MHalfAway 1 1 1 = Ok (Some (10, 1)) /\
+  simplest_from_float_spec 10 MHalfAway 1 1 1 = Ok (Some (10, 1)) /\
+  round_to_prec 10 MHalfAway 1 (5, 1) = (5, 1).
+Proof. exact simplest_from_float_powbase_half_refuted. Qed.
+Print Assumptions C18_F07_powbase_half_refuted.
 
 Theorem C18_F08_unlimited_refuted :
   known_unlimited MAway 0 = true /\ known_float 10 MAway 0 123 = false /\
@@ -327,3 +338,122 @@ Theorem C18_F08_unlimited_refuted :
   simplest_from_float_spec 10 MAway 0 123 (-1) = Ok (Some (123, 10)).
 Proof. exact simplest_from_float_unlimited_refuted. Qed.
 Print Assumptions C18_F08_unlimited_refuted.
+
+Theorem C18_F09_unlimited_rounded_refuted :
+  simplest_from_float_zero_shortcut 10 MAway 123 (-1) = Ok (Some (20, 1)) /\
+  simplest_from_float_asis 10 MAway 0 123 (-1) = Ok (Some (123, 10)) /\
+  simplest_from_float_spec 10 MAway 0 123 (-1) = Ok (Some (123, 10)).
+Proof. exact simplest_from_float_unlimited_rounded_refuted. Qed.
+Print Assumptions C18_F09_unlimited_rounded_refuted.
+
+(** ** round 3 *)
+(** after the repair of F07 the only class left on the FBig side is F06 (odd base with a half mode) *)
+Theorem C18_known_float_is_oddbase : forall B md p sig, known_float B md p sig = known_oddbase B md p.
+Proof. reflexivity. Qed.
+Print Assumptions C18_known_float_is_oddbase.
+
+(** the repaired bounds of a power of the base (towards_zero, the HalfEven tie flag on the side of zero) are the
+    specified ones: every base >= 2, mode, precision, exponent, both signs *)
+Theorem C18_error_bounds_power_of_base : forall B p sig ex, 2 <= B -> 0 < p -> sig mod B <> 0 ->
+  ndigits B (Z.abs sig) <= p -> Z.abs sig = 1 -> forall md, known_float B md p sig = false ->
+  match error_bounds_asis B md p sig ex with
+  | Ok (l, r, il, ir) =>
+      (freduce (fsub (scaled B sig ex 1) l), freduce (fadd (scaled B sig ex 1) r), il, ir) = float_interval_spec B md p sig ex
+  | _ => False
+  end.
+Proof. exact interval_asis_spec_pow. Qed.
+Print Assumptions C18_error_bounds_power_of_base.
+
+(** ** bodies of rational/src/simplify.rs REGENERATED on every run (gen/SimplifyGen.v, tools/translate_c18_r3.py):
+    an edit of one of these bodies changes the generated definition and breaks the statement *)
+Theorem C18_is_simpler_than_regenerated : forall x y,
+  is_simpler_than_gen x y = is_simpler_than_asis x y /\ is_simpler_than_gen x y = simpler x y.
+Proof. exact (fun x y => conj (is_simpler_than_gen_asis x y) (is_simpler_than_gen_spec x y)). Qed.
+Print Assumptions C18_is_simpler_than_regenerated.
+
+Theorem C18_sign_order_regenerated : forall a b,
+  sign_cmp_gen a b = match a, b with Positive, Negative => Gt | Negative, Positive => Lt | _, _ => Eq end.
+Proof. exact sign_cmp_gen_spec. Qed.
+Print Assumptions C18_sign_order_regenerated.
+
+(** one iteration of the loop of farey_neighbors = one unfolding of the as-is model *)
+Theorem C18_farey_step_regenerated : forall x L k ln ld rn rd,
+  farey_F x L k (ln, ld, rn, rd) = farey_step_result k (farey_step_gen x L (ln, ld) (rn, rd)).
+Proof. exact farey_F_gen. Qed.
+Print Assumptions C18_farey_step_regenerated.
+
+(** the three debug assertions, the start pair and the walk, all regenerated, are the as-is model *)
+Theorem C18_farey_neighbors_regenerated : forall x L, 0 < snd x ->
+  farey_neighbors_gen x L = farey_neighbors_asis x L.
+Proof. exact farey_neighbors_gen_asis. Qed.
+Print Assumptions C18_farey_neighbors_regenerated.
+
+(** one iteration of the continued-fraction loop of Repr::simplest_in (the model adds the panic of div_rem by zero) *)
+Theorem C18_cf_step_regenerated : forall k n0 d0 n1 d1 nl dl nr dr,
+  cf_F k (n0, d0, n1, d1, nl, dl, nr, dr) =
+  if dl =? 0 then Panic DivideBy0 else cf_step_result k (cf_step_gen n0 d0 n1 d1 nl dl nr dr).
+Proof. exact cf_F_gen. Qed.
+Print Assumptions C18_cf_step_regenerated.
+
+(** the regenerated loop with the regenerated start values computes the Stern-Brocot optimum of every positive interval *)
+Theorem C18_cf_loop_regenerated : forall l u,
+  cf_loop_gen l u = cf_loop l u /\ (pos_itv l u -> cf_loop_gen l u = simplest_pos l u).
+Proof. exact (fun l u => conj (cf_loop_gen_asis l u) (cf_loop_gen_spec l u)). Qed.
+Print Assumptions C18_cf_loop_regenerated.
+
+Theorem C18_nudge_regenerated : forall L, nudge_den_gen L = nudge L.
+Proof. exact nudge_gen. Qed.
+Print Assumptions C18_nudge_regenerated.
+
+Theorem C18_nearest_selection_regenerated : forall (r lf rt : frac),
+  let mid0 := freduce (fadd lf rt) in
+  (if nearest_first_gen r (fst mid0, 2 ^ nearest_mid_shift_gen * snd mid0)
+   then (nearest_first_is_right_gen, nearest_first_sign_gen)
+   else (negb nearest_first_is_right_gen, match nearest_first_sign_gen with Positive => Negative | Negative => Positive end))
+  = (if flt (fst mid0, 2 * snd mid0) r then (true, Positive) else (false, Negative)).
+Proof. exact nearest_selection_gen. Qed.
+Print Assumptions C18_nearest_selection_regenerated.
+
+(** ** the EXECUTABLE roundings the oracle uses to re-check every float case are the declarative relations in
+    which the preimage theorems are stated: the p-digit window holds at exactly one position, the code finds it *)
+Theorem C18_round_to_prec_is_rounds_to : forall B md p x y, 2 <= B -> 1 <= p -> 0 < snd x -> fst x <> 0 ->
+  (round_to_prec B md p x = y <-> rounds_to B md p x y).
+Proof. exact round_to_prec_rounds_to. Qed.
+Print Assumptions C18_round_to_prec_is_rounds_to.
+
+Theorem C18_rounds_to_functional : forall B md p x y y', 2 <= B -> 1 <= p -> 0 < snd x -> fst x <> 0 ->
+  rounds_to B md p x y -> rounds_to B md p x y' -> y = y'.
+Proof. exact rounds_to_functional. Qed.
+Print Assumptions C18_rounds_to_functional.
+
+Theorem C18_ieee_round_is_rounds_to : forall mb eb x, 0 <= mb -> 0 < snd x -> fst x <> 0 ->
+  (forall y, ieee_round mb eb x = Some y -> ieee_rounds_to mb eb x y) /\
+  (forall y, ieee_rounds_to mb eb x y ->
+     ieee_round mb eb x = (if 2 ^ (2 ^ (eb - 1) - 1 + 1) * snd y <=? Z.abs (fst y) then None else Some y)).
+Proof. exact ieee_round_rounds_to. Qed.
+Print Assumptions C18_ieee_round_is_rounds_to.
+
+(** ** edges of simplest_in and simplest_from_f32/f64, all inputs *)
+Theorem C18_simplest_in_argument_order : forall l u, 0 < snd l -> 0 < snd u -> simplest_in_asis l u = simplest_in_asis u l.
+Proof. exact simplest_in_asis_swap. Qed.
+Print Assumptions C18_simplest_in_argument_order.
+
+Theorem C18_simplest_in_different_signs : forall l u,
+  (fst l < 0 < fst u \/ fst u < 0 < fst l) -> simplest_in_asis l u = Ok (0, 1).
+Proof. exact simplest_in_asis_straddle. Qed.
+Print Assumptions C18_simplest_in_different_signs.
+
+Theorem C18_simplest_in_total : forall l u, 0 < snd l -> 0 < snd u -> exists r, simplest_in_asis l u = Ok r.
+Proof. exact simplest_in_asis_total. Qed.
+Print Assumptions C18_simplest_in_total.
+
+Theorem C18_simplest_from_ieee_nonfinite : forall mb eb bits,
+  (bits / 2 ^ mb) mod 2 ^ eb = 2 ^ eb - 1 -> simplest_from_ieee_asis mb eb bits = Ok None.
+Proof. exact simplest_from_ieee_asis_nonfinite. Qed.
+Print Assumptions C18_simplest_from_ieee_nonfinite.
+
+Theorem C18_simplest_from_ieee_zero : forall mb eb bits,
+  (bits / 2 ^ mb) mod 2 ^ eb <> 2 ^ eb - 1 -> (bits / 2 ^ mb) mod 2 ^ eb = 0 -> bits mod 2 ^ mb = 0 ->
+  simplest_from_ieee_asis mb eb bits = Ok (Some (0, 1)).
+Proof. exact simplest_from_ieee_asis_zero. Qed.
+Print Assumptions C18_simplest_from_ieee_zero.
